@@ -193,6 +193,7 @@ Section T.
   Variable cfg : config V.
   Variable specs : list (nat * spec V).
   Variable bin : binop -> V -> V -> V.
+  Variable un : unop -> V -> V.
 
   Notation DM := (derive_mean V abs_width rel_width wm_rel wm_abs bad_limits neg_sigma ninf pinf half cfg specs).
   Notation PASS := (pass V abs_width rel_width wm_rel wm_abs uf_lo uf_hi pl_lo pl_hi gl_mean gl_sigma lu_lo lu_hi
@@ -289,7 +290,7 @@ Section T.
   (* identical instances for identical arguments when ids are kept *)
   Theorem instance_kept (md : mode V) (n n' : node) (sp : list (nat * spec V)) (args : nat -> option V) :
     wf V n -> keeps_ids V md -> PASS md n = Ok (n', sp) ->
-    inst V bin args n' = inst V bin args n.
+    inst V bin un args n' = inst V bin un args n.
   Proof.
     intros W K E. unfold pass in E.
     destruct (mode_args V abs_width rel_width wm_rel wm_abs uf_lo uf_hi pl_lo pl_hi gl_mean gl_sigma lu_lo lu_hi
@@ -297,7 +298,7 @@ Section T.
     destruct (rebuild V (sigma_of V a) n) as [n1|] eqn:Er; [|discriminate]. inversion E; subst.
     destruct (mode_args_follows V abs_width rel_width wm_rel wm_abs uf_lo uf_hi pl_lo pl_hi gl_mean gl_sigma lu_lo lu_hi
                 lu_bad bad_limits neg_sigma ninf pinf half cfg specs md n a K Ea) as [f [ms [F _]]].
-    apply (rebuild_inst V bin (sigma_of V a) args args n W n' Er).
+    apply (rebuild_inst V bin un (sigma_of V a) args args n W n' Er).
     intros q _. rewrite (diag_sd V a q (follows_diag V ninf _ _ _ _ F)). reflexivity.
   Qed.
 End T.
@@ -464,7 +465,8 @@ Proof. split; [simpl; auto|]. split; [reflexivity|]. eexists. vm_compute. reflex
 
 (* a constant held directly by a collection is kept *)
 Definition ex_coll : node Q := NColl [("k", NConst 2); ("p", NPrior 0%nat)].
-Definition qbin (o : binop) (a b : Q) : Q := match o with OAdd => a + b | OSub => a - b | OMul => a * b | ODiv => a / b end.
+Definition qbin (o : binop) (a b : Q) : Q := match o with OAdd => a + b | OSub => a - b | OMul => a * b | ODiv => a / b
+  | OFloorDiv => inject_Z (Qfloor (a / b)) | OMod => a - b * inject_Z (Qfloor (a / b)) end.
 Lemma collection_constant_example :
   wf Q ex_coll /\ exists sp, qpass (-1000) 1000 [] ex_specs (MMeans (Some 1) None false [1 # 2]) ex_coll = Ok (ex_coll, sp).
 Proof. split; [simpl; auto|]. eexists. vm_compute. reflexivity. Qed.
